@@ -61,7 +61,13 @@ class Events:
     # ---- terminator events
     def classify(self, fn, bb, t, c, target):
         evs = []
-        if t['k'] == 'drop' or c is None:
+        if t['k'] == 'drop':
+            ty = t.get('ty', '')
+            if not ty.startswith('&') and ('MutexGuard<\'_, std::fs::File>' in ty or 'tx::TxLock<' in ty or ty.startswith('tx::TxInner<') or ty.startswith('tx::Tx<')
+                                           or 'RefCell<tx::TxInner<' in ty):
+                evs.append(dict(ev='U', ty=ty, callee='drop(' + ty + ')'))
+            return evs
+        if c is None:
             return evs
         path = c['path']
         rpath = (c.get('resolved') or {}).get('path', path)
